@@ -80,6 +80,7 @@ def owner_type(snap, path):
 
 def save_load(project, violations, i, probes):
     """-> (loaded project or None, snapshot before, snapshot after or None)"""
+    builder.normalise_metamodules(project)
     before = snapshot.snapshot(project)
     try:
         data = project.read()
